@@ -255,10 +255,11 @@ func c13(x *ctx) {
 	shipped := gen.ShippedConfig(engine.RepoRoot)
 	configured := configuredNames(shipped)
 	freshLower := []string{"q", "a_long_name_1"}
-	freshUpper := []string{"Zq", "LongClassName1"}
+	// class names that sort after and before every other name (ancestor lists must keep program order)
+	freshUpper := []string{"Zq", "Aq", "LongClassName1"}
 	if thorough {
 		freshLower = []string{"q", "zz9", "a_long_name_1", "_u"}
-		freshUpper = []string{"Zq", "LongClassName1", "Q"}
+		freshUpper = []string{"Zq", "Aq", "LongClassName1", "Q"}
 	}
 	progs := progSet(x)
 	nTargets := map[string]int{}
